@@ -1,6 +1,7 @@
 import Zc.Proofs.PostState
 import Zc.Proofs.Listeners
 import Zc.Proofs.Reentrant
+import Zc.Proofs.BrowserReentrant
 import Zc.Props.C05
 /-! # C06 — response ingestion and the record-update listener contract
 
@@ -588,6 +589,69 @@ example :
     ∧ (deliverR id id r2too 2 {} [1] 5000 [a1]).cache.getUnique id a1 = none
     ∧ (deliverR id id r2too 2 {} [1] 5000 [a1]).err = none := by
   decide
+
+
+/-! ### browsers whose handlers re-enter the record manager (D24b; `Zc/Model/BrowserReentrant.lean`)
+
+`_ServiceBrowserBase.async_update_records_complete` fires the pending changes; a handler (`add_service`, …) may create another
+browser, whose `async_add_listener(browser, questions)` purges the expired records and runs nested `async_updates` +
+`async_updates_complete(False)` over every listener, the creating browser included.  `completeLoop detach` is that loop, generic in
+the state the handlers run on; `HostR` / `completeAllR` is the executable composite (record manager + browsers with handler plans +
+nested rounds) the correspondence driver runs.  `Browser.detachesCode` is what the translator reads off the code (D24b repair: the
+pending changes are detached before they are fired). -/
+
+/-- **C06 / C04 (a browser's completion delivers each pending change exactly once, whatever its handlers do).**  With the pending
+changes detached before they are fired (the code since the D24b repair), for every state `σ` the handlers run on, every way `get` /
+`set` locate this browser's `_pending_handlers` in it and every non-raising `fire` — in particular one whose handlers re-enter the
+record manager and have this very browser notified and completed again —: the changes the loop hands to `fire` are exactly the ones
+pending when it started, each once, in order; the loop does not raise. -/
+theorem C06_completion_detached_once {σ : Type} (get : σ → PendingCh) (set : σ → PendingCh → σ)
+    (fire : σ → ((String × String) × Change) → σ × Option PyExc) (hfire : ∀ s ev, (fire s ev).2 = none) (s : σ) :
+    Browser.detachesCode = true
+    ∧ (completeLoop Browser.detachesCode (fun st : σ × PendingCh => get st.1) (fun st p => (set st.1 p, st.2)) (tracedFire fire) (s, [])).2 = none
+    ∧ (completeLoop Browser.detachesCode (fun st : σ × PendingCh => get st.1) (fun st p => (set st.1 p, st.2)) (tracedFire fire) (s, [])).1.2 = get s := by
+  have hd : Browser.detachesCode = true := by
+    simp [Browser.detachesCode, complete_takes_pending_eq, complete_iterates_live_eq]
+  rw [hd]
+  exact ⟨rfl, completeLoop_detached_once get set fire hfire s⟩
+
+/-- **C06 (no exception escapes when service handlers create browsers; D24b repaired).**  On a sound cache, for every set of
+handler plans, every nesting depth and every bound `fuel`: the completion round over browsers whose handlers create browsers — each
+creation purging the expired records and running its own rounds over every listener, the creating browser included — returns
+without an exception, and the cache stays sound. -/
+theorem C06_browser_handlers_never_raise (possible : String → List String) (fuel depth : Nat) (now : Ms) (S : HostR)
+    (hs : Cache.Sound lower S.cache) (herr : S.err = none) :
+    (completeAllR lower possible Browser.detachesCode fuel depth now S).err = none
+    ∧ Cache.Sound lower (completeAllR lower possible Browser.detachesCode fuel depth now S).cache := by
+  have hd : Browser.detachesCode = true := by
+    simp [Browser.detachesCode, complete_takes_pending_eq, complete_iterates_live_eq]
+  rw [hd]
+  exact (hostR_ok (lower := lower) possible fuel).2.2.2 depth now S ⟨herr, hs⟩
+
+/-- **D24b, before the repair**: browser 0 browses `_x._tcp`; Added(b) and Added(c) are pending; its `add_service` handler for `b`
+creates browser 2 on `_y._udp`.  An address record cached 121 s earlier (TTL 120) has run out and is not purged yet.  Iterating the
+live dict (`detach = false`): the creation's purge notifies every listener, browser 0's nested completion fires Added(b) **again**
+and Added(c), clears the dict, and the outer loop raises (`RuntimeError: dictionary changed size during iteration`).  Detached: b and c
+once each, no exception, browser 2 registered. -/
+theorem C06_completion_reentered_before_fix :
+    let X := "_x._tcp.local."
+    let Y := "_y._udp.local."
+    let possible : String → List String := fun n => if n = X then [X] else if n = Y then [Y] else []
+    let a1 : Rec := ⟨"h.local.", 1, 1, false, 120, 0, .addr [10, 0, 0, 1] none⟩
+    let pb : Rec := ⟨X, 12, 1, false, 4500, 0, .ptr "b._x._tcp.local."⟩
+    let pc : Rec := ⟨X, 12, 1, false, 4500, 0, .ptr "c._x._tcp.local."⟩
+    let c := cacheAfter id [.datagram 1000000 [a1], .datagram 1121000 [pb, pc]]
+    let b0 : Browser := { types := [X], pending := [(("b._x._tcp.local.", X), .added), (("c._x._tcp.local.", X), .added)] }
+    let S : HostR := { cache := c, listeners := [], browsers := [(0, b0)], plans := [⟨0, .added, "b._x._tcp.local.", 2, [Y]⟩] }
+    let before := completeAllR id possible false 8 0 1121000 S
+    let after := completeAllR id possible true 8 0 1121000 S
+    before.err = some .other
+    ∧ before.cbs.map (fun x => (x.1, x.2.name)) = [(0, "b._x._tcp.local."), (0, "b._x._tcp.local."), (0, "c._x._tcp.local.")]
+    ∧ after.err = none
+    ∧ after.cbs.map (fun x => (x.1, x.2.name)) = [(0, "b._x._tcp.local."), (0, "c._x._tcp.local.")]
+    ∧ after.browsers.map Prod.fst = [0, 2]
+    ∧ (after.cache.getUnique id a1).isNone = true := by
+  decide +kernel
 
 /-! non-vacuity -/
 
